@@ -138,6 +138,26 @@ Definition o_fill (n : onode) (name : str) : finfo :=
      fi_nlink := on_nlink n; fi_id := on_id n |}.
 
 (* ---- namespace calls --------------------------------------------------------- *)
+(* errNotFound, orefafs_internal.go: the result for a missing node - the not-a-directory error if the
+   nearest existing ancestor is not a directory, else [no_ent] (an error, or nil for RemoveAll):
+     for len(dirName) > VolumeNameLen(dirName) { dirName, _ = SplitAbs(dirName); nd, ok := nodes[dirName]; ... } *)
+Fixpoint o_enf_loop (fuel : nat) (s : ofs) (dir_name : str) (no_ent : res) : res :=
+  match fuel with
+  | O => RPanic
+  | S f =>
+      if Nat.leb (length dir_name) (volume_name_len (o_os s) dir_name) then no_ent
+      else
+        match osplit (o_os s) dir_name with
+        | None => RPanic
+        | Some (d, _) =>
+            match ofind s d with
+            | Some (_, n) => if on_dir n then no_ent else RFail ENotADirectory
+            | None => o_enf_loop f s d no_ent
+            end
+        end
+  end.
+Definition o_enf (s : ofs) (abs_path : str) (no_ent : res) : res := o_enf_loop (S (length abs_path)) s abs_path no_ent.
+
 (* the loop of Mkdir that looks for the nearest existing ancestor:
      for !parentOk { dirName, _ = SplitAbs(dirName); parent, parentOk = nodes[dirName] }
    None: SplitAbs panicked (no separator left) or the fuel ran out *)
@@ -228,7 +248,7 @@ Definition o_open_file (s : ofs) (name : str) (flag perm : N) : ofs * (res + han
       match ofind s abs_path with
       | None =>
           match ofind s dir_name with
-          | None => (s, inl (RFail ENoSuchDir))
+          | None => (s, inl (o_enf s abs_path (RFail ENoSuchDir)))
           | Some (pi, pn) =>
               if negb (on_dir pn) then (s, inl (RFail ENotADirectory))
               else if negb (has om OpenCreate) then (s, inl (RFail ENoSuchFile))
@@ -264,7 +284,7 @@ Definition o_remove (s : ofs) (name : str) : ofs * res :=
           else
             (o_with s (aremove str_eqb abs_path (o_index s))
                     (o_del_child (o_release (o_heap s) c) pi file_name), ROk)
-      | _, _ => (s, RFail ENoSuchFile)
+      | _, _ => (s, o_enf s abs_path (RFail ENoSuchFile))
       end
   end.
 
@@ -303,7 +323,7 @@ Definition o_remove_all (s : ofs) (path : str) : ofs * res :=
               else
                 let '(idx1, h1) := o_rm_all (S (length (o_heap s))) (o_os s) (o_index s, o_heap s) abs_path c in
                 (o_with s idx1 (o_del_child h1 pi file_name), ROk)
-          | _, _ => (s, ROk)
+          | _, _ => (s, o_enf s abs_path ROk)      (* a missing path is not an error, a path below a file is *)
           end
       end
   end.
@@ -343,10 +363,12 @@ Definition o_rename (s : ofs) (oldname newname : str) : ofs * res :=
           else
             let n_is_dir := match nchild with Some (_, nn) => on_dir nn | None => false end in
             let n_ok := match nchild with Some _ => true | None => false end in
-            if (on_dir ocn && n_ok) || (negb (on_dir ocn) && n_ok && n_is_dir)
-            then (s, RFail (if owin s then EW_AccessDenied else if n_is_dir then EFileExists else ENotADirectory))
+            if n_is_dir
+            then (s, RFail (if owin s then EW_AccessDenied else EFileExists))
             else if on_dir ocn && (Nat.eqb oc op || is_prefix (o_abs ++ [sepc (o_os s)]) n_abs)
             then (s, RFail EInvalidArgument)
+            else if on_dir ocn && n_ok
+            then (s, RFail (if owin s then EW_AccessDenied else ENotADirectory))
             else if match nchild with Some (nc, _) => Nat.eqb nc oc | None => false end
             then (s, ROk)
             else
@@ -357,7 +379,8 @@ Definition o_rename (s : ofs) (oldname newname : str) : ofs * res :=
               let idx1 := aremove str_eqb o_abs (aset str_eqb n_abs oc (o_index s)) in
               let idx2 := if on_dir ocn then o_rekey_go (o_os s) o_abs n_abs (map fst idx1) idx1 else idx1 in
               (o_with s idx2 h3, ROk)
-      | _, _, _ => (s, RFail ENoSuchFile)
+      | Some _, Some _, None => (s, o_enf s n_abs (RFail ENoSuchFile))
+      | _, _, _ => (s, o_enf s o_abs (RFail ENoSuchFile))
       end
   | _, _ => (s, RPanic)
   end.
@@ -374,18 +397,19 @@ Definition o_link (s : ofs) (oldname newname : str) : ofs * res :=
           if owin s then
             match osplit (o_os s) o_abs with
             | None => (s, RPanic)
-            | Some (o_dir, _) => (s, RFail (match ofind s o_dir with Some _ => ENoSuchFile | None => ENoSuchDir end))
+            | Some (o_dir, _) =>
+                (s, match ofind s o_dir with Some _ => o_enf s o_abs (RFail ENoSuchFile) | None => RFail ENoSuchDir end)
             end
-          else (s, RFail ENoSuchFile)
+          else (s, o_enf s o_abs (RFail ENoSuchFile))
       | Some (oc, ocn) =>
           match ofind s n_dir with
-          | None => (s, RFail ENoSuchFile)
+          | None => (s, o_enf s n_abs (RFail ENoSuchFile))
           | Some (np, npn) =>
               if negb (on_dir npn) then (s, RFail ENotADirectory)
-              else if on_dir ocn then (s, RFail (if owin s then EW_AccessDenied else EC_OpNotPermitted))
               else match ofind s n_abs with
                    | Some _ => (s, RFail (if owin s then EW_AlreadyExists else EFileExists))
                    | None =>
+                       if on_dir ocn then (s, RFail (if owin s then EW_AccessDenied else EC_OpNotPermitted)) else
                        let h1 := o_add_child (o_heap s) np n_file oc in
                        let h2 := match oget h1 oc with
                                  | Some n => oupd h1 oc (on_with_nlink n (on_nlink n + 1))
@@ -401,7 +425,7 @@ Definition o_link (s : ofs) (oldname newname : str) : ofs * res :=
 Definition o_truncate (s : ofs) (name : str) (size : Z) : ofs * res :=
   if Z.ltb size 0 && negb (owin s) then (s, RFail EInvalidArgument)
   else match ofind s (oabs s name) with
-       | None => (s, RFail ENoSuchFile)
+       | None => (s, o_enf s (oabs s name) (RFail ENoSuchFile))
        | Some (c, cn) =>
            if on_dir cn then (s, RFail EIsADirectory)
            else if Z.ltb size 0 then (s, RFail EInvalidArgument)
@@ -411,7 +435,7 @@ Definition o_truncate (s : ofs) (name : str) (size : Z) : ofs * res :=
 (* Chmod *)
 Definition o_chmod (s : ofs) (name : str) (mode : N) : ofs * res :=
   match ofind s (oabs s name) with
-  | None => (s, RFail ENoSuchFile)
+  | None => (s, o_enf s (oabs s name) (RFail ENoSuchFile))
   | Some (c, cn) => (o_with_heap s (oupd (o_heap s) c (on_with_meta cn (with_mode (on_meta cn) mode))), ROk)
   end.
 
@@ -419,20 +443,20 @@ Definition o_chmod (s : ofs) (name : str) (mode : N) : ofs * res :=
 Definition o_chown (s : ofs) (name : str) (uid gid : Z) : ofs * res :=
   if owin s then (s, RFail EOpNotPermitted)
   else match ofind s (oabs s name) with
-       | None => (s, RFail ENoSuchFile)
+       | None => (s, o_enf s (oabs s name) (RFail ENoSuchFile))
        | Some (c, cn) =>
            (o_with_heap s (oupd (o_heap s) c (on_with_meta cn (with_owner (on_meta cn) uid gid))), ROk)
        end.
 
 (* Chtimes (the time itself is not modelled) *)
 Definition o_chtimes (s : ofs) (name : str) : res :=
-  match ofind s (oabs s name) with None => RFail ENoSuchFile | Some _ => ROk end.
+  match ofind s (oabs s name) with None => o_enf s (oabs s name) (RFail ENoSuchFile) | Some _ => ROk end.
 
 (* Chdir *)
 Definition o_chdir (s : ofs) (dir : str) : ofs * res :=
   let abs_path := oabs s dir in
   match ofind s abs_path with
-  | None => (s, RFail ENoSuchFile)
+  | None => (s, o_enf s abs_path (RFail ENoSuchFile))
   | Some (_, n) =>
       if on_dir n then (o_with_cwd s abs_path, ROk)
       else (s, RFail (if owin s then EW_DirNameInvalid else ENotADirectory))
@@ -448,7 +472,7 @@ Definition o_stat (s : ofs) (path : str) : res :=
       | Some (_, n) => RInfo (o_fill n (base (o_os s) path))
       | None =>
           match ofind s dir_name with
-          | None => RFail ENoSuchDir
+          | None => o_enf s abs_path (RFail ENoSuchDir)
           | Some (_, pn) => if on_dir pn then RFail ENoSuchFile else RFail ENotADirectory
           end
       end
